@@ -378,7 +378,7 @@ def match_finding(findings, key):
 # ----------------------------------------------------------------------------
 
 def write_replay(pid, v):
-    d = os.path.join(VERIF, "evidence", "replay")
+    d = os.path.join(VERIF, "evidence", "replay") if REPO == "/repo" else os.path.join(BUILD, "scratch_replay")
     os.makedirs(d, exist_ok=True)
     h = hashlib.sha1(json.dumps(v, sort_keys=True, default=str).encode()).hexdigest()[:12]
     path = os.path.join(d, f"{pid}_{h}.json")
@@ -389,7 +389,10 @@ def write_replay(pid, v):
 def run_check(pid, tier, replay=None):
     t0 = time.time()
     seed = int(os.environ.get("VERIF_SEED", "0") or 0)
-    ev_path = os.path.join(VERIF, "evidence", pid + ".json")
+    # evidence under /verif/evidence always describes a run against /repo itself; runs against a scratch
+    # copy (VERIF_REPO, used for mutants and seeded changes) write elsewhere
+    ev_path = (os.path.join(VERIF, "evidence", pid + ".json") if REPO == "/repo"
+               else os.path.join(BUILD, "scratch_evidence", pid + ".json"))
     os.makedirs(os.path.dirname(ev_path), exist_ok=True)
     violations = []   # dicts: key, what, replay payload, found_input(bool)
     pr = proof_stage(pid, tier)
